@@ -1,4 +1,4 @@
-from checks import mibcompile, oidindex, atomicwrite, searcher, readerlookup, history, oidtree, decls, refs, types, texts, v1v2, pysnmpload, syntax, mutate, dialects
+from checks import mibcompile, oidindex, atomicwrite, searcher, readerlookup, history, oidtree, decls, refs, types, texts, v1v2, pysnmpload, syntax, mutate, dialects, clitools
 
 RULE_MC = ('scenario = terminal state of MibCompile.tla exported by TLC (request x lazily chosen answers of every '
            'component x options); non-trivial = at least one component answered with a failure / fresh / borrow; '
@@ -80,3 +80,6 @@ REGISTRY['C11'] = {'run': mutate.run, 'replay': mutate.replay, 'finish': {
 
 REGISTRY['C17'] = {'run': dialects.run, 'replay': dialects.replay, 'finish': {
     'rule': 'item = state of Dialects.tla: a buildable subset S of the nine relaxations x (a documented breakage edit of a well-formed host | a construct writable only under an option | a single step S -> S+{o} over a corpus of well-formed files); all 384 buildable subsets in both tiers; distinct by (S, item)', 'exhaustive': False}}
+
+REGISTRY['C20'] = {'run': clitools.run, 'replay': clitools.replay, 'finish': {
+    'rule': 'mibdump: world = state of MibDump.tla (source / borrower / destination state of two modules + alias file + base modules x import shape x request x command line), each materialised on disk and run through the real script; non-trivial = not a usage error; distinct by (world, format). mibcopy: behaviour of MibCopy.tla (3-4 source files over two modules and revisions x initial destination x every visiting order); non-trivial = two files of one module; distinct by (files, destination, order)', 'exhaustive': False}}
